@@ -754,7 +754,11 @@ class HomeKitConnection:
 
         # FIXME: Should drop the connection if can't parse the event?
 
-        decoded = event.body.decode("utf-8")
+        try:
+            decoded = event.body.decode("utf-8")
+        except UnicodeDecodeError:
+            # Treat it like any other event we cannot parse
+            return
         if not decoded:
             return
 
